@@ -8,7 +8,7 @@ from . import common
 
 ID = 'C08'
 LEVEL = 'fault_enumeration'
-BUDGET = {'quick': (400, 85.0), 'thorough': (40000, 1500.0)}
+BUDGET = {'quick': (3000, 80.0), 'thorough': (60000, 1500.0)}
 CHUNK = 40
 RULE = ('enumeration: for each shape (RTS/CTS windows 1, 2, all and BAM; J1939-21 and -22; 5 packets) a traced clean run lists every source-line '
         'event executed by each stack\'s job thread during the transfer; then one run per (stack, file, line, n-th hit) parks that thread there for '
